@@ -832,7 +832,49 @@ func ruleWidthFromSource(c *eng.Ctx) {
 			n++
 			var bad []string
 			measured := 0
-			for w := range eng.SliceInter(st.Val, throughBuiltins, fontFuncs) {
+			// field-sensitive step: a value read from a field of an entry struct (pair.srcHex) is followed to what
+			// was stored into THAT field of such structs in this function, not to everything the struct was built from
+			srcVals := []ssa.Value{st.Val}
+			fieldSensitive := false
+			for w := range eng.Slice(st.Val, func(call *ssa.Call) bool { return eng.CalleeName(call) == "builtin:len" }) {
+				ld, ok := w.(*ssa.UnOp)
+				if !ok || ld.Op != token.MUL {
+					continue
+				}
+				fa, ok := ld.X.(*ssa.FieldAddr)
+				if !ok {
+					continue
+				}
+				if _, isRecv := fa.X.(*ssa.Parameter); isRecv {
+					continue
+				}
+				if bt, ok := ld.Type().Underlying().(*types.Basic); !ok || bt.Info()&types.IsString == 0 {
+					continue
+				}
+				stT := eng.TypeName(fa.X.Type())
+				eng.Instrs(fn, false, func(i2 ssa.Instruction) {
+					s2, ok := i2.(*ssa.Store)
+					if !ok {
+						return
+					}
+					fa2, ok := s2.Addr.(*ssa.FieldAddr)
+					if ok && fa2.Field == fa.Field && eng.TypeName(fa2.X.Type()) == stT {
+						srcVals = append(srcVals, s2.Val)
+						fieldSensitive = true
+					}
+				})
+			}
+			through := throughBuiltins
+			if fieldSensitive {
+				through = func(call *ssa.Call) bool { return eng.CalleeName(call) == "builtin:len" }
+			}
+			reach := map[ssa.Value]bool{}
+			for _, sv := range srcVals {
+				for w := range eng.SliceInter(sv, through, fontFuncs) {
+					reach[w] = true
+				}
+			}
+			for w := range reach {
 				ld, ok := w.(*ssa.UnOp)
 				if !ok || ld.Op != token.MUL {
 					continue
